@@ -891,7 +891,7 @@ pub fn canon_low<P: std::fmt::Debug, E: std::fmt::Debug>(
 }
 
 /// The low-level classification of the same reply bytes: `receive_reply` repeated on a fresh
-/// connection until a connection-level error (at most $n times).
+/// connection until a connection-level error other than a standard service error (at most $n times).
 #[macro_export]
 macro_rules! low_seq {
     ($p:ty, $e:ty, $reply:expr, $n:expr) => {{
@@ -903,7 +903,8 @@ macro_rules! low_seq {
                 Some(r) => canon_low(r),
                 None => "stuck".to_string(),
             };
-            let stop = s.starts_with("err:") || s == "stuck";
+            // a standard service error (err:vs:..) is the reply to one call; the connection goes on
+            let stop = (s.starts_with("err:") && !s.starts_with("err:vs:")) || s == "stuck";
             v.push(s);
             if stop {
                 break;
